@@ -199,9 +199,12 @@ def lead_trail(iszero):
     return lead, trail, inner
 
 
+REAL_DC = 2.0     # real probes are REAL_DC + cos(...): never zero, DC is not moved by a delay
+
+
 def fit_ratio(out, k, N, real):
     """least-squares complex r with out[n] = r * exp(2 pi i k n / N) (complex) or
-    out[n] = Re(r * exp(2 pi i k n / N)) (real) on the samples that are not exactly zero;
+    out[n] = REAL_DC + Re(r * exp(2 pi i k n / N)) (real) on the samples that are not exactly zero;
     returns (r, max residual, number of samples used)."""
     n = np.arange(N)
     use = out != 0
@@ -213,9 +216,10 @@ def fit_ratio(out, k, N, real):
         if m < 2:
             return 0j, 0.0, 0
         A = np.stack([np.cos(th[use]), -np.sin(th[use])], axis=1)
-        sol, *_ = np.linalg.lstsq(A, out[use].astype(np.float64), rcond=None)
+        o = out[use].astype(np.float64) - REAL_DC
+        sol, *_ = np.linalg.lstsq(A, o, rcond=None)
         r = complex(sol[0], sol[1])
-        res = np.abs(A @ sol - out[use])
+        res = np.abs(A @ sol - o)
     else:
         ref = np.exp(1j * th[use])
         o = out[use].astype(np.complex128)
